@@ -60,6 +60,7 @@ pub fn read_file_with_encoding(path: &PathBuf, encoding: &String, st: &mut Share
 
 // ---- extracted data types -----------------------------------------------------------------------------------------------------------------------
 //@@ Emmyrc
+//@@ EmmyrcDiagnostic
 //@@ EmmyrcWorkspace
 //@@ WorkspaceFolder
 //@@ WorkspaceManager
@@ -329,6 +330,40 @@ pub proof fn lemma_env(a: St, b: St)
     ensures rely(a, b), a.quiet ==> b == a
 {
     if a.quiet { lemma_rely_refl(a); } else { let n = choose|n: nat| reach(a, b, n); lemma_reach_rely(a, b, n); }
+}
+
+// ---- the model is not empty: what `env` ADMITS, as lemmas (each names one racy run) ---------------------------------------------------------------------
+/// a didOpen / didChange writes the store while the reload task is suspended and is still in flight (its analysis update has not happened) when the
+/// reload task runs again — e.g. during the disk load
+pub proof fn lemma_admits_store_write_in_flight(a: St, b: St, u: Uri, t: String)
+    requires !a.quiet, a.pend is None, a.wm.ver() < u64::MAX, wm_sync(a.wm, b.wm, u, t), b == (St { wm: b.wm, pend: Pend::Upd(u, t@), ..a })
+    ensures env(a, b)
+{
+    assert(m_upd(a, b));
+    assert(micro(a, b));
+    assert(reach(b, b, 0));
+    assert(reach(a, b, 1));
+}
+/// a document is opened with unsaved text and closed again between two suspension points of the reload (it is in NEITHER snapshot): two handlers,
+/// each finished — the second one's effect on the analysis is `close_effect`
+pub proof fn lemma_admits_open_then_close(a: St, m1: St, m2: St, m3: St, b: St, u: Uri, t: String)
+    requires
+        !a.quiet, a.pend is None, a.wm.ver() < u64::MAX - 1,
+        wm_sync(a.wm, m1.wm, u, t), m1 == (St { wm: m1.wm, pend: Pend::Upd(u, t@), ..a }),
+        m2 == (St { analysis: m1.analysis.insert(u, t@), pend: Pend::None, ..m1 }),
+        wm_close(m2.wm, m3.wm, u), m3 == (St { wm: m3.wm, pend: Pend::Close(u), ..m2 }),
+        close_effect(m3.wm, m3.analysis, b.analysis, u), b == (St { analysis: b.analysis, pend: Pend::None, ..m3 }),
+    ensures env(a, b)
+{
+    assert(m_upd(a, m1)); assert(micro(a, m1));
+    assert(m_flush_upd(m1, m2)); assert(micro(m1, m2));
+    assert(m_close(m2, m3)); assert(micro(m2, m3));
+    assert(m_flush_close(m3, b)); assert(micro(m3, b));
+    assert(reach(b, b, 0));
+    assert(reach(m3, b, 1));
+    assert(reach(m2, b, 2));
+    assert(reach(m1, b, 3));
+    assert(reach(a, b, 4));
 }
 
 //@@include c29_reload/protocol.rs
